@@ -718,9 +718,19 @@ start:
 		for _, instr := range b.Instrs {
 			ops = instr.Operands(ops[:0])
 			for _, pop := range ops {
-				if op, ok := (*pop).(*ir.Const); ok && typeutil.IsPointerLike(op.Type()) {
-					// The only constant pointer-like is nil.
-					entrys.set(op, ValueNilness{Inner: AlwaysNil, Outer: AlwaysNil})
+				switch op := (*pop).(type) {
+				case *ir.Const:
+					if typeutil.IsPointerLike(op.Type()) {
+						// The only constant pointer-like is nil.
+						entrys.set(op, ValueNilness{Inner: AlwaysNil, Outer: AlwaysNil})
+					}
+				case *ir.Global, *ir.Function, *ir.Builtin:
+					// The addresses of globals and functions are never nil.
+					// state.get knows that only for values numbered beyond the
+					// end of the state; record it so that a value numbered
+					// below an instruction that has state isn't read as the
+					// lattice identity.
+					entrys.set(op, ValueNilness{Outer: NeverNil})
 				}
 			}
 		}
